@@ -132,6 +132,9 @@ pub fn run_case(case: &Case) -> (Vec<(String, String)>, Info) {
                 None => continue,
             };
             let parent_known = bi == 0 || built.parent[bi].map(|p| known.contains(&p)).unwrap_or(false);
+            // parent stored but the branch's fork point has been purged: add_block takes the same
+            // out-of-order branch as for a parentless block (F10), whatever loading_completed says
+            let purged_root = parent_known && bi != 0 && crate::deliver::is_rootless(&d.node, &crate::observe::BlockTable::default(), &b);
             let before = block_on(snapshot(&d.node, max_id));
             let o = d.offer(b.clone(), reoffered);
             match &o.outcome {
@@ -159,6 +162,13 @@ pub fn run_case(case: &Case) -> (Vec<(String, String)>, Info) {
                 if before.tip_hash != after.tip_hash || before.lc_index != after.lc_index {
                     let key = if lc_false { "C05|orphan_path".to_string() } else { "C05|orphan_disturbs|loading_completed=true".to_string() };
                     v.push((key, format!("block idx {} (id {}) arrived before its parent: tip {} -> {}, index changed: {}", bi, b.id, hx(&before.tip_hash), hx(&after.tip_hash), before.lc_index != after.lc_index)));
+                }
+            }
+            if purged_root {
+                info.orphans += 1;
+                orphan_seen = true;
+                if before.tip_hash != after.tip_hash || before.lc_index != after.lc_index {
+                    v.push(("C05|orphan_path".to_string(), format!("block idx {} (id {}) extends a branch whose fork point has been purged: tip {} -> {}, index changed: {}", bi, b.id, hx(&before.tip_hash), hx(&after.tip_hash), before.lc_index != after.lc_index)));
                 }
             }
             if orphan_seen {
@@ -387,6 +397,7 @@ pub fn run(ctx: &mut Ctx) {
             heartbeat: 100,
             social_stake: 0,
             loading_completed,
+            prune: 8,
         };
         for n in 2..=n_max {
             let perms = all_permutations(n);
